@@ -6,6 +6,7 @@ import (
 	"encoding/json"
 	"errors"
 	"fmt"
+	"os"
 	"sort"
 	"sync"
 	"sync/atomic"
@@ -418,6 +419,23 @@ func TestPropStreams(t *testing.T) {
 		record("streams", c)
 		ctx.Judge(rt, "streams", runCase(c), c)
 	})
+}
+
+// TestPropSlowManager: a resource manager that needs longer than the client's own rpc timeout (20 s) for a
+// phase-two request still gets its answer sent (whether the coordinator still waits is the coordinator's
+// business). One commit and one rollback, side by side, once per process; the shard decides the branch type.
+func TestPropSlowManager(t *testing.T) {
+	sh := 0
+	if v := os.Getenv("VERIF_SHARD"); v != "" {
+		fmt.Sscanf(v, "%d", &sh)
+	}
+	bt := []int8{0, 1, 3}[sh%3]
+	c := Case{InFlight: 2, Reqs: []Req{
+		{MsgID: 901, Rollback: false, BranchType: bt, Xid: "10.0.0.1:8091:901", BranchID: 901, ResourceID: "slow", Status: int8(branch.BranchStatusPhasetwoCommitted), DelayMs: 20600},
+		{MsgID: 902, Rollback: true, BranchType: bt, Xid: "10.0.0.1:8091:902", BranchID: 902, ResourceID: "slow", Status: int8(branch.BranchStatusPhasetwoRollbacked), DelayMs: 20300},
+	}}
+	record("slow-manager", c)
+	ctx.Judge(t, "slow-manager", runCase(c), c)
 }
 
 func TestPropReplaySaved(t *testing.T) {
